@@ -42,8 +42,17 @@ def record(case, obs, layouts_for, plain=False):
                 offs = [l["offs"].get(fd["name"], NONE) for fd in oi.get("fields", [])] if a["k"] == "struct" else []
                 real.append({"path": mp + [n], "size": l["size"], "align": l["align"], "offs": offs})
         files.append({"path": mp, "items": items})
-    return {"id": case["id"], "input": case["input"], "accepted": bool(obs.get("accepted")),
-            "reg": obs.get("reg", []) or [], "files": files, "real": real, "plain": bool(plain)}
+    return {"id": case["id"], "kind": "layout", "input": case["input"], "accepted": bool(obs.get("accepted")),
+            "reg": obs.get("reg", []) or [], "files": files, "real": real, "plain": bool(plain),
+            "nonterm": [], "isNonterm": False, "isNameErr": False}
+
+
+def graph_record(case, obs):
+    nt = [n.split("::") for n in obs.get("nonterm", [])]
+    return {"id": case["id"], "kind": "graph", "input": case["input"], "accepted": bool(obs.get("accepted")),
+            "reg": [], "files": [], "real": [], "plain": False,
+            "nonterm": nt, "isNonterm": obs.get("class") == "nonterm",
+            "isNameErr": obs.get("class") in ("nonterm", "unresolved")}
 
 
 def evaluate(records, outdir, timeout=1200):
@@ -64,12 +73,15 @@ def evaluate(records, outdir, timeout=1200):
     p = subprocess.run(cmd, stdout=subprocess.PIPE, stderr=subprocess.STDOUT, text=True, cwd=outdir,
                        env=dict(os.environ, TRACE=path))
     verdicts = {}
+    kfs = set()
     prefix = '<<"VERDICT", "'
     for line in p.stdout.splitlines():
         if line.startswith(prefix):
             v = json.loads(unescape_tla(line[len(prefix):-3]))
             verdicts[v["id"]] = set(v["viol"])
+            if v.get("kf"):
+                kfs.add(v["id"])
     if p.returncode != 0 or len(verdicts) != len(records):
         raise ToolError(f"trace validation failed (exit {p.returncode}, {len(verdicts)}/{len(records)} verdicts):\n"
                         + "\n".join(l for l in p.stdout.splitlines() if not l.startswith(prefix))[-3000:])
-    return verdicts, {"records": len(records), "wall_s": round(time.time() - t, 1)}
+    return verdicts, {"records": len(records), "wall_s": round(time.time() - t, 1), "kf_ids": kfs}
